@@ -49,7 +49,7 @@ def c17(ctx: Ctx):
         open(ctx.spec("Gen_C17_run.cfg"), "w").write(text)
         ctx.tlc("Gen_C17", "Gen_C17_run.cfg", label="F generate documents (BFS + seeded sample)")
         n = ctx.unquote(ctx.spec("cases.ndjson"), cases)
-        ctx.exhaustive = True
+        ctx.exhaustive = False      # the tier drives seeded slices (VERIF_SEED) next to its exhaustive core: not a complete enumeration of one finite space
         cs = read_ndjson(cases)
         ctx.extra["generator"] = dict(documents=n, seeded_sample_of_4_or_more_atoms=sum(1 for c in cs if len(_ids(c)) >= 4),
                                       constants=dict(quick=dict(K=2, PairLevel=1, FieldK=1, M=600),
